@@ -49,6 +49,19 @@ def rand_bc(rng, S, L, trailing, allow_per=True):
             rbs.append((l, r)); lanes.append((l, r))
         else:
             rbs.append(k); lanes.append((k, k))
+    # structured assignments: blocks of lanes sharing one condition while the rest differ (a shortcut for "uniform" boundary
+    # arrays must look at every lane)
+    m = rng.random()
+    blk = trailing[-1] if trailing else 1
+    if L >= 2 and m < 0.25:
+        for q in range(min(blk, L)):
+            rbs[q], lanes[q] = rbs[0], lanes[0]
+    elif L >= 2 and m < 0.4:
+        for q in range(L - 1):
+            rbs[q], lanes[q] = rbs[0], lanes[0]
+    elif L >= 2 and m < 0.5:
+        for q in range(0, L, blk):
+            rbs[q], lanes[q] = rbs[0], lanes[0]
     return ("ind", [1] + trailing, rbs), lanes
 
 
@@ -87,6 +100,12 @@ def generate(rng, tier):
     for _ in range(260 if tier == "quick" else 6000):
         S = "Q" if rng.random() < 0.8 else "F"
         shape, xs, flat, bc, lanes = gen_spline(rng, S, tier)
+        if rng.random() < 0.08:
+            # three points with NotAKnot written as a Mixed pair on every lane (the parabola case in its other spelling)
+            n_, L_ = 3, gen.lanes_of(shape)
+            xs, flat = xs[:3], flat[:3 * L_]
+            shape = [3] + shape[1:]
+            bc, lanes = ("ind", [1] + shape[1:], [("nak", "nak")] * L_), [("nak", "nak")] * L_
         qs = sample_queries(xs, S)
         dtag, qtag = gen.pick_dims(rng, len(shape), 1)
         if isinstance(bc, tuple) and dtag == "sta" and False:
